@@ -66,16 +66,31 @@ def demo_info(prop, n):
     return m, cmd, crate, demo
 
 
+def demo_dest(prop, n, crate, demo):
+    """Where the demonstration file goes: taken from demo.md ("Copy `file` to `path`"), else <crate>/tests/."""
+    md = os.path.join(sd(prop, n), "demo.md")
+    if os.path.exists(md):
+        txt = open(md).read()
+        mm = re.search(r"[Cc]opy\s+`%s`\s+to\s*\n?\s*`([^`]+)`" % re.escape(demo), txt)
+        if mm:
+            return mm.group(1)
+    return os.path.join(CRATE_DIR[crate], "tests", demo)
+
+
 def cmd_confirm(prop, n, wt):
     m, cmd, crate, demo = demo_info(prop, n)
     env = {"CARGO_TARGET_DIR": os.path.join(wt, "target")}
     patch = os.path.join(sd(prop, n), "patch.diff")
-    dest = os.path.join(wt, CRATE_DIR[crate], "tests", demo)
+    rel = demo_dest(prop, n, crate, demo)
+    dest = os.path.join(wt, rel)
+    reg = os.path.join(sd(prop, n), "demo_register.diff")
     run("git checkout -- . && git clean -fdq -e target", wt)
     os.makedirs(os.path.dirname(dest), exist_ok=True)
-    res = {"worktree": wt, "at": time.strftime("%Y-%m-%dT%H:%M:%SZ", time.gmtime())}
+    res = {"worktree": wt, "demo_placed_at": rel, "at": time.strftime("%Y-%m-%dT%H:%M:%SZ", time.gmtime())}
     # without the patch: demo passes
     shutil.copy(os.path.join(sd(prop, n), demo), dest)
+    if os.path.exists(reg):
+        run(["git", "apply", reg], wt)
     rc, out, t = run(cmd, wt, env)
     res["demo_without_patch"] = {"cmd": cmd, "exit": rc, "tail": out.strip().splitlines()[-3:]}
     # with the patch
@@ -85,6 +100,8 @@ def cmd_confirm(prop, n, wt):
     res["demo_with_patch"] = {"cmd": cmd, "exit": rc, "tail": [l for l in out.strip().splitlines() if "test result" in l or "panicked" in l][-4:]}
     # existing tests of the touched crate (demo removed so that only the unedited suite runs)
     os.remove(dest)
+    if os.path.exists(reg):
+        run(["git", "apply", "-R", reg], wt)
     tcmd = f"cargo test -p {crate} --offline -j 6"
     rc, out, t = run(tcmd, wt, env)
     res["existing_tests_with_patch"] = {"cmd": tcmd, "exit": rc,
